@@ -160,8 +160,12 @@ func deadClosure(info *types.Info, body ast.Node, lit *ast.FuncLit) bool {
 // through looks through conversions and through locals that are defined once and never re-assigned
 // (`fixedDB := conf.Options.TargetDB`).
 func Through(info *types.Info, e ast.Expr) ast.Expr {
-	for i := 0; i < 4; i++ {
+	for i := 0; i < 6; i++ {
 		e = Strip(info, e)
+		if d := LitField(info, e); d != nil {
+			e = d
+			continue
+		}
 		d := pat.DefOf(info, e)
 		if d == nil {
 			break
@@ -169,6 +173,43 @@ func Through(info *types.Info, e ast.Expr) ast.Expr {
 		e = d
 	}
 	return e
+}
+
+// LitField: e is `v.f` with v a local defined once by a struct literal (`v := T{f: x}`, `v := &T{f: x}`), f
+// never stored into afterwards and v never handed to a call: the expression x the literal gives the field (nil
+// otherwise). This is what a context struct that only carries values between phases leaves behind.
+func LitField(info *types.Info, e ast.Expr) ast.Expr {
+	sel, ok := ast.Unparen(e).(*ast.SelectorExpr)
+	if !ok {
+		return nil
+	}
+	id, ok := ast.Unparen(sel.X).(*ast.Ident)
+	if !ok {
+		return nil
+	}
+	v, ok := info.Uses[id].(*types.Var)
+	if !ok || v.IsField() || handedOver[v] || reassigned[v] || fieldStored[v][sel.Sel.Name] {
+		return nil
+	}
+	d := ast.Unparen(pat.DefOf(info, id))
+	if u, isAddr := d.(*ast.UnaryExpr); isAddr && u.Op == token.AND {
+		d = ast.Unparen(u.X)
+	}
+	cl, ok := d.(*ast.CompositeLit)
+	if !ok {
+		return nil
+	}
+	if _, isStruct := info.TypeOf(cl).Underlying().(*types.Struct); !isStruct {
+		return nil
+	}
+	for _, el := range cl.Elts {
+		if kv, isKV := el.(*ast.KeyValueExpr); isKV {
+			if k, isID := kv.Key.(*ast.Ident); isID && k.Name == sel.Sel.Name {
+				return kv.Value
+			}
+		}
+	}
+	return nil
 }
 
 func isTargetDB(info *types.Info, e ast.Expr) bool {
@@ -511,6 +552,49 @@ func scanFor(info *types.Info, body ast.Node, v types.Object) ast.Node {
 		case *ast.ForStmt:
 			if l.Cond == nil {
 				return true
+			}
+			// index loop over the whole slice: `for i := 0; i < len(v); i++ { if v[i] != nil { return v[i] } }`
+			// (the element possibly held in a local of the body, or assigned to a variable that is returned)
+			if cnt, isC := LoopCount(info, l).(*ast.CallExpr); isC && len(cnt.Args) == 1 && RootObj(info, cnt.Args[0]) == v && ZeroBased(info, l) {
+				if bi, isB := core.Callee(info, cnt).(*types.Builtin); isB && bi.Name() == "len" {
+					idx := Obj(info, l.Init.(*ast.AssignStmt).Lhs[0])
+					isElem := func(e ast.Expr) bool {
+						ix, ok := Through(info, e).(*ast.IndexExpr)
+						return ok && RootObj(info, ix.X) == v && Obj(info, ix.Index) == idx
+					}
+					inArm := func(stmt ast.Node) bool { // stmt sits in the arm of `if <element> != nil`
+						path := core.PathTo(l.Body, stmt)
+						for i := len(path) - 1; i > 0; i-- {
+							ifs, isIf := path[i-1].(*ast.IfStmt)
+							if !isIf || path[i] != ast.Node(ifs.Body) {
+								continue
+							}
+							for _, f := range cfgq.Facts(ifs.Cond, true) {
+								if be, isB := ast.Unparen(f.Expr).(*ast.BinaryExpr); isB && (be.Op == token.NEQ) == f.Val && (be.Op == token.NEQ || be.Op == token.EQL) {
+									if isElem(be.X) && core.IsNil(info, be.Y) || isElem(be.Y) && core.IsNil(info, be.X) {
+										return true
+									}
+								}
+							}
+						}
+						return false
+					}
+					core.Inspect(l.Body, func(m ast.Node) bool {
+						switch s := m.(type) {
+						case *ast.ReturnStmt:
+							if len(s.Results) > 0 && isElem(s.Results[len(s.Results)-1]) && inArm(s) {
+								scan = l.Cond
+							}
+						case *ast.AssignStmt:
+							if len(s.Lhs) == 1 && len(s.Rhs) == 1 && isElem(s.Rhs[0]) && inArm(s) {
+								if r := Obj(info, s.Lhs[0]); r != nil && returned(r) {
+									scan = l.Cond
+								}
+							}
+						}
+						return true
+					})
+				}
 			}
 			// acc == nil in the condition, acc = v[i] in the body, acc returned
 			for _, f := range cfgq.Facts(l.Cond, true) {
